@@ -68,6 +68,7 @@ class WriteSet:
         self.keys = set()       # whole heap arrays to havoc
         self.objs = []          # (kind, receiver V, extra) : havoc restricted to one object
         self.containers = False
+        self.widen = []         # ($obj entries of callee contracts) -> resolved to whole regions
 
 
 def _loop_invariant_expr(node, assigned, written_fields):
@@ -150,7 +151,14 @@ def heap_write_keys(ex, stmts, st):
                         cc = REG.contracts.get(d[1])
                         if cc is None:
                             raise Unsupported(f"callee contract {d[1]} not loaded", n)
-                        ws.keys.update(expand_keys(cc.modifies))
+                        for ent in cc.modifies:
+                            if ent.startswith("$obj:"):
+                                # object-granular inside a loop: widen to the whole region of that container type
+                                ws.widen.append((cc, ent))
+                            elif "@" in ent[1:] and not ent.startswith("$"):
+                                ws.keys.update(expand_keys([ent[0] + ent[1:].split("@", 1)[0]]))
+                            else:
+                                ws.keys.update(expand_keys([ent]))
                     elif d[0] == "havoc":
                         ws.keys.update(expand_keys(d[2] if len(d) > 2 else []))
                 elif isinstance(n.func, ast.Attribute) and n.func.attr in ("append", "extend", "pop", "remove", "clear"):
@@ -160,6 +168,13 @@ def heap_write_keys(ex, stmts, st):
 
 def havoc_heap(ex, st, ws):
     from .calls import _havoc_key
+    for cc, ent in ws.widen:
+        # region of the container type named by the entry: evaluate its static type from the callee's params
+        reg = _entry_region(ex, cc, ent)
+        for r, ty in T.REGIONS.items():
+            if r == reg:
+                for k in ty.all_keys():
+                    _havoc_key(ex, st, k)
     if ws.containers:
         for hk in list(st.heap.keys()):
             if hk.startswith("$"):
@@ -193,6 +208,14 @@ def havoc_heap(ex, st, ws):
                     key = ty.k_val(j)
                     a = ex.h.arr(st, key, [Obj, ks], srt)
                     st.heap[key] = z3.Store(a, r, z3.Const(T.fresh_name("hv.vals"), z3.ArraySort(ks, srt)))
+
+
+def _entry_region(ex, cc, ent):
+    """Static region of `$obj:expr` of contract cc (expr typed in cc's parameter environment)."""
+    st0 = State()
+    env = {n: T.fresh(t, n) for n, t in cc.params.items() if not isinstance(t, T.Fn)}
+    v = T.opt_inner(ex.spec_eval(st0, ent[5:], env))
+    return v.ty.region
 
 
 # ---- iteration domain --------------------------------------------------------------
